@@ -8,6 +8,7 @@ const DEFAULT_BUFFER_LEN: usize = if cfg!(test) { 13 } else { 1024 };
 pub(crate) struct TextDecoder {
     encoding: AsciiCompatibleEncoding,
     pending_source_location_bytes_start: usize,
+    pending_source_location_bytes_end: usize,
     pending_text_streaming_decoder: Option<Decoder>,
     text_buffer: String,
 }
@@ -21,6 +22,7 @@ impl TextDecoder {
     pub fn new(encoding: AsciiCompatibleEncoding) -> Self {
         Self {
             pending_source_location_bytes_start: 0,
+            pending_source_location_bytes_end: 0,
             encoding,
             pending_text_streaming_decoder: None,
             // this will be later initialized to DEFAULT_BUFFER_LEN,
@@ -41,7 +43,7 @@ impl TextDecoder {
     ) -> Result<(), RewritingError> {
         if self.pending_text_streaming_decoder.is_some() {
             self.feed_text(
-                Spanned::new(self.pending_source_location_bytes_start, Bytes::new(&[])),
+                Spanned::new(self.pending_source_location_bytes_end, Bytes::new(&[])),
                 true,
                 output_handler,
             )?;
@@ -57,7 +59,15 @@ impl TextDecoder {
         output_handler: &mut OutputHandlerCallback<'_>,
     ) -> Result<(), RewritingError> {
         let mut raw_input = input_span.as_slice();
-        let mut next_source_location_bytes_start = input_span.source_location().bytes().start;
+        // NOTE: bytes consumed by the streaming decoder that haven't produced any text yet
+        // (a prefix of a multi-byte character) belong to the next reported chunk.
+        let mut next_source_location_bytes_start = if self.pending_text_streaming_decoder.is_some()
+        {
+            self.pending_source_location_bytes_start
+        } else {
+            input_span.source_location().bytes().start
+        };
+        let mut consumed_bytes_end = input_span.source_location().bytes().start;
 
         let encoding = self.encoding.get();
 
@@ -72,6 +82,7 @@ impl TextDecoder {
             let source_location =
                 SourceLocation::from_start_len(next_source_location_bytes_start, utf8_text.len());
             next_source_location_bytes_start = source_location.bytes().end;
+            consumed_bytes_end = next_source_location_bytes_start;
 
             (output_handler)(utf8_text, really_last, encoding, source_location)?;
 
@@ -96,11 +107,15 @@ impl TextDecoder {
                 decoder.decode_to_str(raw_input, buffer, last_in_text_node);
 
             let finished_decoding = status == CoderResult::InputEmpty;
-            let source_location =
-                SourceLocation::from_start_len(next_source_location_bytes_start, read);
-            next_source_location_bytes_start = source_location.bytes().end;
+            consumed_bytes_end += read;
 
             if written > 0 || last_in_text_node {
+                let source_location = SourceLocation::from_start_len(
+                    next_source_location_bytes_start,
+                    consumed_bytes_end - next_source_location_bytes_start,
+                );
+                next_source_location_bytes_start = consumed_bytes_end;
+
                 // the last call to feed_text() may make multiple calls to output_handler,
                 // but only one call to output_handler can be *the* last one.
                 let really_last = last_in_text_node && finished_decoding;
@@ -119,6 +134,7 @@ impl TextDecoder {
                     self.pending_text_streaming_decoder = None;
                 } else {
                     self.pending_source_location_bytes_start = next_source_location_bytes_start;
+                    self.pending_source_location_bytes_end = consumed_bytes_end;
                 }
                 return Ok(());
             }
